@@ -153,6 +153,15 @@ def build_inputs(tier):
         if ml != s:
             cases.append(("multiline", ml, "exec", None))
             cases.append(("multiline-file", ml, "file", None))
+    # errors reported at the END of a text whose last physical line is only the tail of a multi-line (or continued) string:
+    # the implicit NEWLINE/ENDMARKER carry no line text of their own
+    tails = ['if x == """a\nb"""', "while '" + "''p\nq\nr''" + "'", 'for i in """a\nb""" + c', "class A('" + "''x\ny''" + "')", 'def f(a="""d\ne""")',
+             "x = (1,\n'" + "''s\nt''" + "'", "if x == 'a\\\nb'", 'elif """a\nb""":\n  pass', 'y = [\n"""a\n  b""",', 'print("""a\nb""" """c\nd"""']
+    for t in tails:
+        for pre in ["", "import os\n", "z = 0\n\n"]:
+            for suf in ["", "\n", " "]:
+                cases.append(("string-tail-file", pre + t + suf, "file", None))
+                cases.append(("string-tail", pre + t + suf, "exec", None))
     for s in ["class A[T]: pass\n", "type X = int\n", "try:\n  pass\nexcept* E:\n  pass\n", "def f[T](x): pass\n", "x = 1\ntype Y[T] = T\n"]:
         for v in [(3, 8), (3, 10), (3, 11)]:
             cases.append(("version", s, "exec", v))
